@@ -19,7 +19,7 @@ RULE = ("operation histories on fresh tries of the 4 classes x suffix_aware x va
         "non-trivial = some stored key is a proper prefix of another or a key is stored twice or the history has >= 2 entries; distinct = distinct (class, options, history).")
 ASSUMPTIONS = ["shadow model: dict keyed by tuple(stems without 'p:') from the class's own tokenize(); value of the longest key that is a prefix of the query's key",
                "metadata values are unique objects per operation so that a returned value identifies the write it came from"]
-FLOORS = ["match-hit-longer-query", "match-hit-exact", "match-miss", "overwrite", "prefix-pair-stored", "set_lru-stems", "set_lru-serialized", "match_lru-serialized", "variant-pair-checked",
+FLOORS = ["match-hit-longer-query", "match-hit-exact", "match-miss", "overwrite", "prefix-pair-stored", "set_lru-stems", "set_lru-serialized", "match_lru-serialized", "variant-pair-checked", "variant-negative-checked",
           "class-LRUTrie", "class-CanonicalizedLRUTrie", "class-NormalizedLRUTrie", "class-FingerprintedLRUTrie", "trailing-path-cleaned", "suffix-aware"]
 PROBE_FLOORS = ["clean_trailing_path", "ensure_lru_stems"]
 
@@ -140,6 +140,47 @@ VARIANT_PAIRS = [
 ]
 
 
+NEG_PAIRS = [("http://lemonde.fr/x", "https://lemonde.fr/x"), ("http://www.lemonde.fr/x", "http://lemonde.fr/x"), ("http://lemonde.fr/x#a", "http://lemonde.fr/x#b"),
+             ("http://lemonde.fr/X", "http://lemonde.fr/x"), ("http://lemonde.fr/x?b=1&a=2", "http://lemonde.fr/x?a=2&b=1"), ("http://fr.lemonde.fr/x", "http://lemonde.fr/x"),
+             ("http://lemonde.fr/x?utm_source=1", "http://lemonde.fr/x"), ("http://lemonde.fr:8080/x", "http://lemonde.fr/x"), ("http://lemonde.fr/x", "http://lemonde.co.uk/x")]
+
+
+def indep_key(fn, u, sa, kwargs):
+    """Key computed WITHOUT the trie's tokenizer: stems of the variant's string function (scheme stem dropped when the string has none)."""
+    import re as _re
+    from ural.lru import lru_stems
+    s = fn(u, **kwargs)
+    st = lru_stems(s, suffix_aware=sa)
+    if not _re.match(r"^[a-zA-Z]{0,64}:?//", s) or s.startswith("//"):
+        st = [x for x in st if not x.startswith("s:")]
+    return tuple(x for x in st if x != "p:")
+
+
+def negative_variant_law(ctx, cls, fn, sa, kwargs):
+    """Two URLs the variant's function (with the trie's own options) maps to DIFFERENT keys, neither a prefix of the other, are different keys."""
+    for a, b in NEG_PAIRS:
+        try:
+            ka, kb = indep_key(fn, a, sa, kwargs), indep_key(fn, b, sa, kwargs)
+        except Exception:
+            continue
+        wit = {"class": cls.__name__, "suffix_aware": sa, "kwargs": kwargs, "a": a, "b": b, "negative": True}
+        try:
+            t = cls(suffix_aware=sa, **kwargs)
+            v = V(0)
+            t.set(a, v)
+            got = t.match(b)
+            ctx.ev()
+            ctx.count("variant-negative-checked")
+            want_hit = kb[: len(ka)] == ka
+            if want_hit and got is not v:
+                ctx.viol("C11:variant-law:options-not-honoured:missed", wit, {"key_a": ka, "key_b": kb, "got": got})
+            if not want_hit and got is not None:
+                ctx.viol("C11:variant-law:options-not-honoured:spurious-hit", wit, {"key_a": ka, "key_b": kb, "got": got})
+            ctx.nontrivial(("neg", cls.__name__, sa, sorted(kwargs.items()), a, b))
+        except Exception as e:
+            ctx.viol("C11:exception:" + ctx.exc(cls.__name__ + ".variant", e), wit)
+
+
 def variant_law(ctx, cls, fn, sa, kwargs):
     for a, b in VARIANT_PAIRS:
         try:
@@ -191,6 +232,7 @@ def run(ctx):
                 for sa in (False, True):
                     if fn is not None:
                         variant_law(ctx, cls, fn, sa, kw)
+                        negative_variant_law(ctx, cls, fn, sa, kw)
                     run_history(ctx, cls, sa, kw, [("set", "http://lemonde.fr/"), ("set_lru_ser", "http://lemonde.fr/x/"), ("setitem", "http://lemonde.fr/x/y?a=1")],
                                 ["http://lemonde.fr", "http://lemonde.fr/x", "http://lemonde.fr/x/y", "http://lemonde.fr/x/y?a=1#f", "http://lemonde.fr/z", "https://lemonde.fr/"], "directed")
             ctx.sample("directed", {"class": "NormalizedLRUTrie", "ops": [["set", "http://lemonde.fr/"], ["set_lru_ser", "http://lemonde.fr/x/"]]})
@@ -241,6 +283,11 @@ def replay(ctx, witness):
     kw = witness.get("kwargs") or {}
     if "ops" in witness and witness["ops"] and witness["ops"][0][0] != "set_lru":
         run_history(ctx, cls, witness["suffix_aware"], kw, [tuple(o) for o in witness["ops"]], universe(), "replay")
+    elif "a" in witness and witness.get("negative"):
+        fn = {"CanonicalizedLRUTrie": canonicalize_url, "NormalizedLRUTrie": normalize_url, "FingerprintedLRUTrie": fingerprint_url}[witness["class"]]
+        global NEG_PAIRS
+        NEG_PAIRS = [(witness["a"], witness["b"])]
+        negative_variant_law(ctx, cls, fn, witness["suffix_aware"], kw)
     elif "a" in witness:
         fn = {"CanonicalizedLRUTrie": canonicalize_url, "NormalizedLRUTrie": normalize_url, "FingerprintedLRUTrie": fingerprint_url}[witness["class"]]
         global VARIANT_PAIRS
